@@ -539,7 +539,15 @@ pub fn main_reply(o: &Opts) {
                     let j = gen_reply(&p, &e, &mut r2);
                     // every other case: the same document in a non-compact layout (white space around tokens,
                     // member names partly written as \u escapes) - what a frame *means* does not depend on it
-                    let text = if r2.chance(1, 2) { j.text() } else { j.text_layout(&mut r2, true) };
+                    let mut text = if r2.chance(1, 2) { j.text() } else { j.text_layout(&mut r2, true) };
+                    // one case in sixteen: a big frame (4.1 .. 20 KiB: beyond 16 steps of the read buffer), the same
+                    // document with a long run of blanks behind its opening brace or in front of its closing one
+                    if r2.chance(1, 16) {
+                        let hi = if r2.chance(1, 4) { 20000 } else { 6000 };
+                        let n = r2.range(4100, hi);
+                        let at = if r2.chance(1, 2) { 1 } else { text.len() - 1 };
+                        text.insert_str(at, &" ".repeat(n));
+                    }
                     // every third case: the frame is the last of a history on one connection (continuing stream items,
                     // earlier errors, other replies); its class must be what it is on a fresh connection
                     let mut hist: Vec<Vec<u8>> = vec![];
@@ -553,7 +561,7 @@ pub fn main_reply(o: &Opts) {
                         }
                     }
                     let c = if hist.is_empty() { classify(pn, en, text.as_bytes()) } else { classify_after(pn, en, &hist, text.as_bytes()) };
-                    let l = std::iter::once(hex(text.as_bytes())).chain(hist.iter().map(|h| hex(h))).collect::<Vec<_>>().join("~");
+                    let l = std::iter::once(enc_bytes(text.as_bytes())).chain(hist.iter().map(|h| enc_bytes(h))).collect::<Vec<_>>().join("~");
                     vec![format!("reply P {ps} E {es} J {} L {l} => {c}", j.sexpr())]
                 });
             }
@@ -609,6 +617,19 @@ pub struct MSParams {
     pub b: Option<String>,
 }
 
+/// A method type that keeps every member it is handed: `method` plus a flattened catch-all map.
+#[derive(Debug, Serialize, Deserialize, PartialEq)]
+pub struct MFlat {
+    pub method: MNameF,
+    #[serde(flatten)]
+    pub rest: std::collections::BTreeMap<String, serde_json::Value>,
+}
+#[derive(Debug, Serialize, Deserialize, PartialEq)]
+pub enum MNameF {
+    #[serde(rename = "x.F")]
+    F,
+}
+
 pub fn decode_call(m: &str, frame: &[u8]) -> String {
     // through the connection (receive_call) and, independently, serde_json::from_slice
     let via_conn = {
@@ -618,6 +639,7 @@ pub fn decode_call(m: &str, frame: &[u8]) -> String {
             "M2" => call_tok(block_on(conn.receive_call::<M2<'_>>()).map_err(to_json)),
             "Svc" => call_tok(block_on(conn.receive_call::<varlink_service::Method<'_>>()).map_err(to_json)),
             "MS" => call_tok(block_on(conn.receive_call::<MStruct>()).map_err(to_json)),
+            "MF" => call_tok(block_on(conn.receive_call::<MFlat>()).map_err(to_json)),
             _ => panic!("unknown M"),
         }
     };
@@ -730,6 +752,37 @@ pub fn main_envelope(o: &Opts) {
                 vec![format!("calldec M {msh} J {} => {t}", j.sexpr())]
             });
         }
+    }
+    // (a') a method type that shows every member it was handed (`MF`: `method` + a flattened catch-all): the three
+    // flags are hidden from it, every other member - `parameters` of any shape, `id`, `tag`, anything - passes through
+    for _ in 0..(if o.thorough() { 12000 } else { 1200 }) {
+        let mut r2 = Rng::new(rng.next());
+        em.case(|| {
+            let mut ms: Vec<(String, J)> = vec![("method".into(), J::Str(if r2.chance(1, 12) { "x.G".into() } else { "x.F".into() }, false))];
+            if r2.chance(2, 3) {
+                ms.push(("parameters".into(), rand_any(&mut r2, 2)));
+            }
+            let pool = ["id", "tag", "extra", "continues", "error", "onewayx", "More", "up", "z"];
+            let mut used: Vec<&str> = vec![];
+            for _ in 0..r2.below(4) {
+                let k = *r2.pick(&pool);
+                if !used.contains(&k) {
+                    used.push(k);
+                    ms.push((k.to_string(), rand_any(&mut r2, 1)));
+                }
+            }
+            let flags = r2.below(8) as u8;
+            let fv = r2.below(8) as u8 & flags;
+            for (i, name) in ["oneway", "more", "upgrade"].iter().enumerate() {
+                if flags & (1 << i) != 0 {
+                    ms.push((name.to_string(), J::Bool(fv & (1 << i) != 0)));
+                }
+            }
+            shuffle(&mut ms, &mut r2);
+            let j = J::Obj(ms);
+            let t = decode_call("MF", j.text().as_bytes());
+            vec![format!("calldec M MF J {} => {t}", j.sexpr())]
+        });
     }
     // (b) encoding calls, errors, replies: bytes on the wire vs the model's encoder
     let n = if o.thorough() { 6000 } else { 600 };
